@@ -530,8 +530,80 @@ func c06Follow(c *evid.Ctx, seed int64, appends int) {
 	c.Count("follow_reads_that_caught_the_entry_right_after_a_miss", tipHits.Load())
 }
 
+// c06Large: entries larger than the pooled 64 KiB read buffer (the reader's second code
+// path: release the pooled buffer, allocate, read again) read by many goroutines at once
+// while the writer appends more of them; every read must return the intact entry.
+func c06Large(c *evid.Ctx, seed int64, rounds int) {
+	env, err := c06Open(false, 1<<20)
+	if err != nil {
+		c.Inconclusive("cannot open WAL: %v", err)
+		return
+	}
+	defer env.cleanup()
+	rng := rand.New(rand.NewSource(seed))
+	var mu sync.Mutex
+	want := map[uint64]*raft.Log{}
+	var last atomic.Uint64
+	add := func() bool {
+		idx := last.Load() + 1
+		l := gen.Entry(rng, idx, "big", 66000+rng.Intn(200000))
+		mu.Lock()
+		want[idx] = l
+		mu.Unlock()
+		if err := env.w.StoreLogs([]*raft.Log{l}); err != nil {
+			c.Violation("C06:writer-error", err.Error(), map[string]any{"large_seed": seed})
+			return false
+		}
+		last.Store(idx)
+		return true
+	}
+	for i := 0; i < 6; i++ {
+		if !add() {
+			return
+		}
+	}
+	var wg sync.WaitGroup
+	var reads atomic.Int64
+	for r := 0; r < 8; r++ {
+		wg.Add(1)
+		go func(r int) {
+			defer wg.Done()
+			rr := rand.New(rand.NewSource(seed*977 + int64(r)))
+			for i := 0; i < rounds; i++ {
+				idx := 1 + uint64(rr.Intn(int(last.Load())))
+				op := c06Read(env.w, r, "get", idx)
+				reads.Add(1)
+				mu.Lock()
+				w := want[idx]
+				mu.Unlock()
+				switch {
+				case op.Err != "":
+					c.Violation("C06:unexpected-error:get:large", fmt.Sprintf("GetLog(%d) of an entry larger than the pooled read buffer, read concurrently: %s", idx, op.Err), map[string]any{"large_seed": seed, "index": idx})
+					return
+				case op.Log == nil:
+					c.Violation("C06:stale-or-future-value:get:large", fmt.Sprintf("GetLog(%d) not found although the entry was acknowledged before the read started", idx), map[string]any{"large_seed": seed, "index": idx})
+					return
+				default:
+					if d := model.LogDiff(op.Log, w); d != "" {
+						c.Violation("C06:stale-or-future-value:get:large", fmt.Sprintf("GetLog(%d) of an entry larger than the pooled read buffer, read concurrently, is not the entry that was stored: %s", idx, d), map[string]any{"large_seed": seed, "index": idx})
+						return
+					}
+				}
+			}
+		}(r)
+	}
+	for i := 0; i < 6; i++ {
+		if !add() {
+			break
+		}
+	}
+	wg.Wait()
+	c.Count("large_entry_reads", reads.Load())
+	c.Count("reads", reads.Load())
+}
+
 func runC06(c *evid.Ctx) {
-	c.Rule("histories recorded at the API boundary with tickets from one logical clock: one writer (appends with rotation, head truncation, tail truncation followed by re-append of different content at the same indexes, delete-all followed by a base-index reset) against 2-8 readers on hot indexes (first, last, last+1, just truncated, just re-appended) under seeded hook perturbation, plus directed scripts that park a reader at each window (after loadState before acquire, after acquire, before the tail writer's commitIdx load, before its offsets load, between the bound check and the offsets load, before ReadAt) while each kind of writer op runs to completion; every read is checked against the versions that could have been current during its interval (and independently by porcupine), errors other than not-found are legal only for an index an overlapping truncation removed, entries may only be returned after their batch's fsync completed; all under the race detector; non-trivial = distinct (read kind, overlapping writer op kind, parked-at point) triples with >= 2 candidate versions",
+	c.Rule("histories recorded at the API boundary with tickets from one logical clock: one writer (appends with rotation, head truncation, tail truncation followed by re-append of different content at the same indexes, delete-all followed by a base-index reset) against 2-8 readers on hot indexes (first, last, last+1, just truncated, just re-appended) under seeded hook perturbation, plus directed scripts that park a reader at each window (after loadState before acquire, after acquire, before the tail writer's commitIdx load, before its offsets load, between the bound check and the offsets load, before ReadAt) while each kind of writer op runs to completion; every read is checked against the versions that could have been current during its interval (and independently by porcupine), errors other than not-found are legal only for an index an overlapping truncation removed, entries may only be returned after their batch's fsync completed; plus a tail-follower phase (readers polling GetLog(last+1) while single-entry batches are appended) and a large-entry phase (entries above the pooled 64 KiB read buffer read by 8 goroutines at once); all under the race detector; non-trivial = distinct (read kind, overlapping writer op kind, parked-at point) triples with >= 2 candidate versions",
 		"reads", "overlap_triples")
 	c.Assume("tickets order events only when one completes before the other starts; candidate version sets are supersets of the truth")
 	points := []string{"acquireState.loaded", "GetLog.acquired", "offsetForFrame.checked", "readFrame.beforeRead", "FirstIndex.checked", "LastIndex.checked", "writer.loadCommitIdx", "writer.loadOffsets"}
@@ -592,6 +664,13 @@ func runC06(c *evid.Ctx) {
 	wg.Wait()
 	remove()
 	c.Extra("hook_hits_stress", ctl.Hits())
+	if quick(c) {
+		c06Large(c, c.Seed, 150)
+	} else {
+		for k := int64(0); k < 6; k++ {
+			c06Large(c, c.Seed*13+k, 600)
+		}
+	}
 	if quick(c) {
 		c06Follow(c, c.Seed, 20000)
 	} else {
